@@ -11,8 +11,9 @@ def monitor(out):
     tag = D.opt_tag(spec)
     for r in real["records"]:
         c = r["spec"]
-        if r["exc"] is not None or c.max_time is None or c.max_score is not None or c.early_stopping:
+        if r["exc"] is not None or c.max_time is None:
             continue
+        other = c.max_score is not None or bool(c.early_stopping)
         snap = r["snapshot"]
         durs = opt.eval_times[r["rows0"]:snap["rows"]]
         T = c.max_time
@@ -22,9 +23,9 @@ def monitor(out):
             if elapsed > T and first is None:
                 first = k + 1
         n_new = len(durs)
-        if first is not None and n_new != first:
+        if first is not None and (n_new > first or (n_new != first and not other)):
             fails.append(dict(signature=f"C14|{tag}|step-started-after-deadline", detail=f"T={T} durations={durs}: rows={n_new}, deadline passed after step {first}", case=spec))
-        if first is None and n_new != c.n_iter:
+        if first is None and n_new != c.n_iter and not other:
             fails.append(dict(signature=f"C14|{tag}|stopped-before-deadline", detail=f"T={T} durations={durs}: rows={n_new} != n_iter={c.n_iter}", case=spec))
     return fails
 
@@ -37,8 +38,16 @@ def scenarios(r, n):
         calls = []
         for _c in range(r.choice([1, 2, 3])):
             n_iter = r.choice([1, 4, 8, 12]) if spec["opt"] not in gen.SMBO else r.choice([1, 4, 8])
-            calls.append(dict(n_iter=n_iter, memory=r.choice(["on", "off"]), max_time=r.choice([0.5, 1, 2, 2.5, 3, 7, 100]),
-                              verbosity=r.choice(drvgen.VERBS[:3])))
+            c = dict(n_iter=n_iter, memory=r.choice(["on", "off"]), max_time=r.choice([0.5, 1, 2, 2.5, 3, 7, 100]),
+                     verbosity=r.choice(drvgen.VERBS[:3]))
+            k = r.random()
+            if k < 0.2:      # combined with the other criteria: the time budget must still be honoured
+                c["early_stopping"] = {"n_iter_no_change": r.choice([2, 5, 1000])}
+            elif k < 0.35:
+                c["max_score"] = r.choice([-1e9, 1e9, 0])
+            elif k < 0.45:
+                c["early_stopping"] = {"n_iter_no_change": 1000}; c["max_score"] = 1e9
+            calls.append(c)
         spec["calls"] = calls
         out.append(spec)
     return out
@@ -66,6 +75,39 @@ def function_level():
     return len(lines), dis
 
 
+def stopcheck_level():
+    """StopRun.check with every combination of the three criteria (order of the if/elif chain)"""
+    import gradient_free_optimizers._stop_run as sr
+    from ..drv import VClock
+    from ..common import tok_f, tok_opt, tok_rat
+    lines, expect = [], []
+    clock = VClock(0)
+    saved = sr.time
+    sr.time = clock
+    try:
+        for now in (0.5, 2):
+            for mt in (None, 1):
+                for ms in (None, 3):
+                    for sb in (1, 5):
+                        for es in (None, {"n_iter_no_change": 2}, {"n_iter_no_change": 2, "tol_abs": 0.5}):
+                            for scores in ([1, 1, 1, 1], [1, 2, 3, 4], [1, 5, 5.25, 5.25]):
+                                clock.now = now
+                                st = sr.StopRun(0, mt, ms, es)
+                                st.update(sb, [float(x) for x in scores])
+                                try:
+                                    res = "true" if st.check() else "false"
+                                except Exception as e:  # noqa
+                                    res = "err:" + type(e).__name__
+                                es_tok = "0 - - -" if not es else f"1 {es['n_iter_no_change']} {tok_opt(es.get('tol_abs'), tok_f)} -"
+                                lines.append(f"stopcheck py {tok_rat(now)} 0 {tok_opt(mt, tok_f)} {tok_opt(ms, tok_f)} {es_tok} {tok_f(sb)} {len(scores)} " + " ".join(tok_f(x) for x in scores))
+                                expect.append(res)
+    finally:
+        sr.time = saved
+    got = C.run_driver(lines)
+    dis = [dict(case=None, diff=dict(cmd=l, real=e, model=g)) for l, e, g in zip(lines, expect, got) if e != g]
+    return len(lines), dis[:10]
+
+
 def run():
     chk = Check("C14")
     chk.build_and_audit()
@@ -75,6 +117,9 @@ def run():
     n, dis = fl if fl else (0, [])
     chk.corr("function-level time_exceeded on a (now, start, max_time) grid incl. exact hits", n, dis, {("fn", "grid")},
              [dict(grid="6 x 3 x 7 incl. exact hits of T and max_time in {None, 0}")])
+    sl = chk.stage('function-level StopRun.check', stopcheck_level)
+    if sl:
+        chk.corr("function-level StopRun.check with every combination of max_time / max_score / early_stopping", sl[0], sl[1], {("fn", "stopcheck-combos")})
     specs = scenarios(r, 150 if quick else 1500)
     fails = D.run_specs(chk, "driver-level stop step under max_time (virtual clock) vs search.py/_stop_run.py/_times_tracker.py", specs, monitor)
     chk.monitor("C14 statement on the real runs (duration schedules with zeros, exact hits, cache hits)", len(specs), fails)
